@@ -96,35 +96,44 @@ abbrev Key := Nat × Bool
 /-- the trie key of a table key `(hash, suitedness)` -/
 def Key.code (k : Key) : Nat := 2 * k.1 + (if k.2 then 1 else 0)
 
-/-- A finished lookup: association list in first-insertion key order (python dict order),
-    values from the last write, indices densely re-ranked (`__reset_ranks`). -/
+/-- A finished lookup.  `dict`: the dictionary `(hash, suitedness) ↦ (raw index, label)` after all
+    insertions (last write wins); `rankArr`: the re-ranking of `__reset_ranks` — 16-bit cell `i` holds
+    the number of surviving raw indices below the surviving raw index `i`; `entries`: the table in
+    python's dictionary order (first insertion), used only to print it. -/
 structure Lookup where
+  dict : Trie (Nat × Label)
+  rankArr : Nat
   entries : List (Key × Entry)
-  map : Trie Entry
 
-def Lookup.get? (t : Lookup) (k : Key) : Option Entry := t.map.get? k.code
-def Lookup.contains (t : Lookup) (k : Key) : Bool := t.map.contains k.code
+/-- cell `i` of an array of 16-bit cells kept in a natural number -/
+def cell16 (arr i : Nat) : Nat := (arr >>> (16 * i)) % 65536
+
+def Lookup.get? (t : Lookup) (k : Key) : Option Entry :=
+  match t.dict.get? k.code with
+  | none => none
+  | some (i, label) => some ⟨cell16 t.rankArr i, label⟩
+def Lookup.contains (t : Lookup) (k : Key) : Bool := t.dict.contains k.code
+
+def Lookup.empty : Lookup := { dict := Trie.empty, rankArr := 0, entries := [] }
 
 /-- last-write-wins dictionary + dense re-indexing -/
 def Builder.finish (b : Builder) : Lookup :=
   let ins := b.raw.reverse
-  -- dictionary semantics: key order of first insertion, value of last insertion
-  let m : Trie Entry :=
-    ins.foldl (fun m e => m.insert (Key.code (e.hash, e.suited)) ⟨e.index, e.label⟩) Trie.empty
+  let dict : Trie (Nat × Label) :=
+    ins.foldl (fun m e => m.insert (Key.code (e.hash, e.suited)) (e.index, e.label)) Trie.empty
+  -- `__reset_ranks`: the surviving raw indices (a bit set), ranked densely in increasing order.  Raw
+  -- indices are 0 .. count-1, so the dense rank of `i` is the number of surviving indices below it.
+  let alive : Nat := dict.fold (fun mask v => mask ||| (1 <<< v.1)) 0
+  let rankArr : Nat :=
+    ((List.range b.count).foldl (fun (acc : Nat × Nat) i =>
+      if alive.testBit i then (acc.1 ||| (acc.2 <<< (16 * i)), acc.2 + 1) else acc) (0, 0)).1
+  -- python's dictionary order: keys in order of first insertion
   let keys : List Key :=
     (ins.foldl (fun (acc : List Key × Trie Unit) e =>
       let k : Key := (e.hash, e.suited)
       if acc.2.contains k.code then acc else (k :: acc.1, acc.2.insert k.code ())) ([], Trie.empty)).1.reverse
-  let vals := keys.map fun k => (k, (m.get? k.code).getD default)
-  -- `__reset_ranks`: the surviving raw indices, ranked densely in increasing order.  Raw indices are
-  -- 0 .. count-1, so the dense rank of `i` is the number of surviving indices below it.
-  let alive : Trie Unit := vals.foldl (fun t (_, e) => t.insert e.index ()) Trie.empty
-  let rankMap : Trie Nat :=
-    ((List.range b.count).foldl (fun (acc : Trie Nat × Nat) i =>
-      if alive.contains i then (acc.1.insert i acc.2, acc.2 + 1) else acc) (Trie.empty, 0)).1
-  let entries := vals.map fun (k, e) => (k, (⟨(rankMap.get? e.index).getD 0, e.label⟩ : Entry))
-  { entries := entries
-    map := entries.foldl (fun m (k, e) => m.insert k.code e) Trie.empty }
+  let t0 : Lookup := { dict := dict, rankArr := rankArr, entries := [] }
+  { t0 with entries := keys.map fun k => (k, (t0.get? k).getD default) }
 
 open Label in
 def standardBuilder (ro : List Rank) : Builder :=
@@ -230,7 +239,7 @@ def Tables.build : Tables :=
   let ts := LookupId.all.map fun l => (l, l.builder.finish)
   { tbl := fun l => match ts.find? (·.1 == l) with
       | some (_, t) => t
-      | none => { entries := [], map := Trie.empty } }
+      | none => Lookup.empty }
 
 /-- errors of evaluation -/
 inductive EvalErr where | keyError | valueError
